@@ -459,7 +459,7 @@ SPEC = {
     'rule': ('histories: every result object is edited in place and converted / used again (stale caches); sums/differences of MPS and MPO (L 1..6 incl. the single-site path, independent bond profiles one/random/maximal/over-complete for the '
              'two operands, matching non-trivial boundary charges, real/complex/mixed, general alpha), MPO composition, chained expression '
              '((A+B)@C - A@C), apply_operator incl. H(psi - phi), MPO.identity (scale, dtype), as_matrix dense vs sparse, as_vector, from_vector '
-             'with zero tolerance (complex, real, integer, product, sparse vectors, scales 1e-6..1e6), merge/split of tensor pairs for '
+             'with zero tolerance (complex, real, integer, product, sparse vectors, scales 1e-6..1e6; every eighth case a LONG chain of 2^10..2^14 / 3^8..3^9 / 4^6..4^7 / 5^5..5^6 / 6^5 entries with nearly low-rank data, perturbation 1e-8..1e-12), merge/split of tensor pairs for '
              'left/right/sqrt. All compared with dense algebra on independently contracted operands (rel 1e-11). distinct = (operation, L, d, '
              'layout, profiles, dtypes).'),
     'deciding': ['as_matrix.sparse==dense[after-inplace-edit]', 'mps-sum.dense', 'mpo-add.dense', 'mpo-sub.dense', 'mpo-matmul.dense', 'mpo-chain.dense', 'apply.dense', 'identity.dense',
